@@ -179,6 +179,9 @@ def gen_handlers(ch: Chooser, *, causes: tuple[str, ...] = ('create', 'update', 
                 h['subs'] = [{'id': f's{k + 1}', 'script': common.gen_script(ch, max_failures=2, allow_perm=allow_perm)}
                              for k in range(ch.int(1, 2))]
                 h['script'] = [{'do': 'ok', 'dur': ch.choice([0.0, 0.1])}]
+                if allow_perm and ch.bool(0.25):
+                    # the parent gives up for good on a later attempt, while its children are still retrying
+                    h['script'] = [{'do': 'ok', 'dur': 0.0}] * ch.int(1, 2) + [{'do': 'perm', 'dur': 0.0}]
             handlers.append(h)
     return handlers
 
